@@ -18,7 +18,9 @@ ASSUMPTIONS = ["list format: numbers below 2^21 for the SET-level comparison (ou
                "still walks such strings and its read-safety theorem covers them); sign characters are inside the cursor-level model and the tie, "
                "outside the structural models of Hw.Bitmap.Scan (refinement theorems are stated on the structural domain)",
                "no allocation failure"]
-MODELLED = ("modelled: hwloc/bitmap.c 252-739 (three printers as chunk lists + the shared cursor machine, three parsers), "
+MODELLED = ("modelled: hwloc/bitmap.c 252-739 (three printers as chunk lists + the shared cursor machine, three parsers: structural models "
+            "Hw.Bitmap.Scan and cursor-level models Hw.Bitmap.Cursor with read/write logs, proved equal on the structural domain; "
+            "hwloc_bitmap_enlarge_by_ulongs sizing), "
             "hwloc_snprintf (= snprintf in this build); not modelled: allocation failure paths")
 
 def run_engines(tier, seed):
